@@ -413,6 +413,15 @@ class Interp:
                     env[p] = self.ev(d, env, fn.cls)
             for a, d in zip(node.args.kwonlyargs, node.args.kw_defaults):
                 env[a.arg] = (kwargs or {}).get(a.arg, self.ev(d, env, fn.cls) if d is not None else None)
+            named = set(params) | {a.arg for a in node.args.kwonlyargs}
+            if node.args.kwarg is not None:
+                # def f(..., **rest): the keyword arguments that name no parameter, as a dictionary
+                rest_ = h.new_dict()
+                for k, v in (kwargs or {}).items():
+                    if k not in named:
+                        h.dict_set(rest_, k, v)
+                env[node.args.kwarg.arg] = rest_
+                kwargs = {k: v for k, v in (kwargs or {}).items() if k in named}
             for k, v in (kwargs or {}).items():
                 env[k] = v
             for p in params:
@@ -774,7 +783,20 @@ class Interp:
                 args.extend(self.seq(self.ev(a.value, env, cls)))       # f(*xs): the items of xs, in order
             else:
                 args.append(self.ev(a, env, cls))
-        kwargs = {k.arg: self.ev(k.value, env, cls) for k in e.keywords}
+        kwargs = {}
+        for k in e.keywords:
+            if k.arg is None:
+                # f(**table): the entries of a dictionary with text keys
+                tv_ = self.ev(k.value, env, cls)
+                if not (isinstance(tv_, Ref) and h.objs[tv_.name]['__class__'] == 'dict'):
+                    raise AnalysisError('heap model: ** of %s' % norm(k.value)[:40])
+                for kk_, vv_ in h.objs[tv_.name]['entries']:
+                    kk_ = kk_.concrete() if isinstance(kk_, SStr) else kk_
+                    if not isinstance(kk_, str):
+                        raise AnalysisError('heap model: ** with the key %r' % (kk_,))
+                    kwargs[kk_] = vv_
+            else:
+                kwargs[k.arg] = self.ev(k.value, env, cls)
         if isinstance(fn, ast.Name) and fn.id in ('any', 'all') and fn.id not in env and len(args) == 1:
             vals = [self.truth(v) for v in self.seq(args[0])]
             return any(vals) if fn.id == 'any' else all(vals)
